@@ -68,7 +68,7 @@ add('C01', DOCGEN + 'RoundTrip + slice invariants; replay of every document on t
     'Every document derivable within the node budget is generated by TLC with its oracle; TLC checks the round trip and the '
     'slice clause on the reader machine and each document is replayed on the real parser (exact text, every node and text token a '
     'slice of the source at its recorded offset); corpus documents parsed by the real code are validated by TLC under a lexical '
-    'hypothesis.', 'Bounded node budget / depth / siblings; oracle soundness rests on guards G1..G11 and UnparseInjective-style review.', '7 (C01)')
+    'hypothesis.', 'Bounded node budget / depth / siblings; oracle soundness rests on guards G1..G13 and UnparseInjective-style review.', '7 (C01)')
 add('C02', DOCGEN + 'StructureWF (abstract machine tree = generating syntax tree); replay: abstract projection of the real tree = oracle',
     'The generating syntax tree is the oracle; TLC checks that the reader machine reproduces it and the real tree of every generated '
     'document is compared with it (names, argument kinds/order/contents, nesting, item ownership, definitions).',
@@ -179,8 +179,7 @@ def main():
         'not_applicable': [{'property_id': p, 'reason': NOT_YET} for p in props if p not in CHECKS],
         'notes': 'See DESIGN.md. VIOLATION only from contract clauses evaluated on observations of the real code; '
                  'machine/code disagreement without a contract failure is reported as DRIFT and does not fail a check. '
-                 'tools/selftest.py (vacuity + corrupted-trace rejection) -> selftest.json; seeded/ holds 86 confirmed code changes and '
-                 'seeded/RESULTS.md which check catches which; known_findings.json lists 2 open findings (C06, C11) and the fix: commits.',
+                 'tools/selftest.py (vacuity + corrupted-trace rejection) -> selftest.json; seeded/ holds 270 confirmed code changes (four waves from independent sub-agents, own ones, reverse patches of repairs) and seeded/RESULTS.md says which check catches which; known_findings.json lists 3 open findings (C06, C11, C12) and the 36 repairs made by fix: commits.',
     }
     with open(os.path.join(ROOT, 'MANIFEST.json'), 'w') as f:
         json.dump(man, f, indent=1)
